@@ -560,7 +560,7 @@ def run_cases(pid, cases, tag="impl", timeout=1500, jit=True, per_worker_min=6):
             for i, x in zip(idxs, rr["result"]["results"]):
                 out[i] = x
         else:
-            singles = cm.run_impl_parallel(pid, "narrow", [dict(cases=[c]) for c in ch], timeout=180, jit=jit,
+            singles = cm.run_impl_parallel(pid, "narrow", [dict(cases=[c]) for c in ch], timeout=900, jit=jit,
                                            tag=tag + "_iso")
             for i, s, c in zip(idxs, singles, ch):
                 if s["status"] == "ok":
